@@ -80,12 +80,16 @@ class C14(Property):
         'future corruption rather than confirming the values independently',
         'the link real code <-> model (Substance/Species/Solute.from_formula(...).mass, mass_from_composition, atomic_number, mass_fractions) '
         'is correspondence only; float summation error of the real code is bounded by the 1e-12 tolerance, not proved',
-        'mass_fractions "of any mixture of such formulas": the theorem is about (mass, coefficient) pairs; that the masses are those of the '
-        'formulas, the optional `substances` registry and set input are oracle/correspondence only',
+        'mass_fractions: mixture_fractions_spec states positivity / proportionality / sum = 1 for mixtures of FORMULAS under PositiveMass '
+        '(well-formed, every written count > 0, charge <= 1000 x number of atoms); outside that hypothesis the clause "positive" is false of '
+        'the code as of the model (charge_bound_needed_witness: H+2000 has mass -0.0898; positive_counts_needed_witness: [Fe]0 has mass 0) - '
+        'physically meaningless inputs, recorded as a limitation of the property text, not generated as mixtures; the optional `substances` '
+        'registry and set input are oracle/correspondence only',
         'Species.from_formula with non-default `phases`, Solute.from_formula: correspondence + oracle only (species_mass_spec covers the default phases)',
         'additivity "over groups" inside arbitrary contexts is contained in formula_mass_spec (product of enclosing multipliers); the explicit '
         'corollaries group_scales / hydrate_additive are stated for a top-level group and for the last hydrate part',
-        'non-ASCII names (str.capitalize/lower beyond ASCII) and period/group tables: no theorem (group table: correspondence only)',
+        'non-ASCII names (str.capitalize/lower beyond ASCII): no theorem, no oracle claim (explicit skip); the period/group tables have '
+        'groups_reference (theorem) and an independent textbook oracle',
     )
 
     # ------------------------------------------------------------------ generation
